@@ -129,6 +129,7 @@ const JIT_FAMS: &[(Family, u32)] = &[
 ];
 
 const ROAM_FAMS: &[(Family, u32)] = &[
+    (Family::IoPressure, 2),
     (Family::Idioms, 3),
     (Family::Raw, 2),
     (Family::Corpus, 1),
